@@ -270,6 +270,12 @@ type c18Exp struct {
 // c18PlatformCandidates returns the digests of the top-level entries of an
 // index whose os and architecture equal the configured platform.
 func c18PlatformCandidates(body []byte, plat string) []string {
+	// "os/arch[/variant][,osver=X]"
+	osver := ""
+	if i := strings.Index(plat, ",osver="); i >= 0 {
+		osver = plat[i+len(",osver="):]
+		plat = plat[:i]
+	}
 	parts := strings.Split(plat, "/")
 	if len(parts) < 2 {
 		return nil
@@ -278,16 +284,48 @@ func c18PlatformCandidates(body []byte, plat string) []string {
 	if err != nil {
 		return nil
 	}
-	out := []string{}
+	build := func(v string) string { // major.minor.build of a windows version
+		f := strings.Split(v, ".")
+		if len(f) > 3 {
+			f = f[:3]
+		}
+		return strings.Join(f, ".")
+	}
+	out, exact, linuxSameArch := []string{}, []string{}, []string{}
 	for _, rf := range pm.Refs {
 		if rf.Platform == nil {
 			continue
 		}
 		osn, _ := rf.Platform["os"].(string)
 		arch, _ := rf.Platform["architecture"].(string)
+		ov, _ := rf.Platform["os.version"].(string)
+		if parts[0] == "windows" {
+			// a windows host runs windows entries of its own build (major.minor.build) and, failing those, linux
+			// entries of its architecture (types/platform Compatible); among several entries of its build the one
+			// with exactly the configured version is the configured image
+			switch {
+			case osn == "windows" && arch == parts[1] && (osver == "" || build(ov) == build(osver)):
+				out = append(out, rf.Digest)
+				if osver != "" && ov == osver {
+					exact = append(exact, rf.Digest)
+				}
+			case osn == "linux" && arch == parts[1]:
+				linuxSameArch = append(linuxSameArch, rf.Digest)
+			}
+			continue
+		}
 		if osn == parts[0] && arch == parts[1] {
 			out = append(out, rf.Digest)
 		}
+	}
+	if parts[0] == "windows" {
+		switch {
+		case len(exact) > 0:
+			return exact
+		case len(out) > 0:
+			return out
+		}
+		return linuxSameArch
 	}
 	return out
 }
